@@ -520,7 +520,7 @@ impl Gen {
             13 => Cmd::Advance { ms: w.cfg.gossip_interval_ms },
             _ => {
                 let Some(to) = self.pick_running(w) else { return Cmd::Join { p: 0 } };
-                let bytes = crate::hostile::craft(&mut self.r, w, &self.captured);
+                let bytes = crate::hostile::craft(&mut self.r, w, &self.captured, to);
                 Cmd::Inject { to, hex: hex(&bytes) }
             }
         }
